@@ -157,11 +157,17 @@ fn check_in(case: &Value, obs: &mut Obs) -> Result<(), String> {
     Ok(())
 }
 
-fn perturb(v: &Value) -> Value {
+fn perturb(v: &Value, how: u8) -> Value {
     match v {
         Value::Number(n) => {
             let x = n.as_f64().unwrap_or(0.0);
-            gen::f(x + 1.0)
+            match how % 4 {
+                0 => gen::f(x + 1.0),
+                // the adjacent double / the smallest non-zero numbers: different numbers, however close
+                1 => gen::f(if x == 0.0 { 5e-324 } else { f64::from_bits(x.to_bits() + 1) }),
+                2 => gen::f(if x == 0.0 { 1e-17 } else { x * (1.0 - f64::EPSILON / 2.0) }),
+                _ => gen::f(if x == 0.0 { -1e-30 } else { f64::from_bits(x.to_bits().wrapping_sub(1)) }),
+            }
         }
         Value::String(s) => Value::String(format!("{}x", s)),
         Value::Bool(b) => Value::Bool(!b),
@@ -169,17 +175,26 @@ fn perturb(v: &Value) -> Value {
         Value::Array(a) => {
             let mut b = a.clone();
             if let Some(last) = b.pop() {
-                b.push(perturb(&last));
+                b.push(perturb(&last, how));
             } else {
                 b.push(Value::Null);
             }
             Value::Array(b)
         }
         Value::Object(o) => {
-            // one more key, one fewer key, or a changed member
+            // one more key, one fewer key, a renamed key (same count; the original key now absent, the new one null
+            // or copied), or a changed member
             let mut m = o.clone();
             if m.is_empty() {
                 m.insert("k".into(), json!(1));
+            } else if how % 3 == 1 {
+                let k = m.keys().next().cloned().unwrap();
+                let old = m.remove(&k).unwrap();
+                m.insert(format!("{}~renamed", k), if how % 2 == 0 { Value::Null } else { old });
+            } else if how % 3 == 2 {
+                let k = m.keys().last().cloned().unwrap();
+                let old = m[&k].clone();
+                m.insert(k, perturb(&old, how / 3));
             } else if m.len() % 2 == 0 {
                 let k = m.keys().next().cloned().unwrap();
                 m.remove(&k);
@@ -193,7 +208,7 @@ fn perturb(v: &Value) -> Value {
 
 fn gen_in() -> BoxedStrategy<Value> {
     let elements = prop_oneof![4 => gen::scalars(), 2 => nested_arrays(), 2 => gen::object_of(gen::plain_values(), 3), 1 => gen::values()];
-    let array_cases = (vec(elements, 0..=5), any::<u16>(), 0u8..6, any::<bool>(), gen::values()).prop_map(|(items, pick, mode, flip, other)| {
+    let array_cases = (vec(elements, 0..=5), any::<u16>(), 0u8..7, any::<bool>(), gen::values()).prop_map(|(items, pick, mode, flip, other)| {
         if items.is_empty() {
             return json!({"needle": other, "hay": items, "kind": "independent"});
         }
@@ -202,7 +217,15 @@ fn gen_in() -> BoxedStrategy<Value> {
             0 => json!({"needle": other, "hay": items, "kind": "independent"}),
             1 => json!({"needle": e, "hay": items, "kind": "member"}),
             2 | 3 => json!({"needle": respell(&e, flip), "hay": items, "kind": "respelled"}),
-            _ => json!({"needle": perturb(&e), "hay": items, "kind": "perturbed"}),
+            4 => {
+                // the haystack holds only a near miss of the needle
+                let mut hay = items.clone();
+                let i = gen::pick(pick, hay.len());
+                hay[i] = perturb(&e, (pick >> 5) as u8);
+                let still = hay.iter().any(|h| crate::model::coerce::deep_eq(h, &e) != crate::model::coerce::Tri::False);
+                json!({"needle": e, "hay": hay, "kind": if still { "member" } else { "perturbed" }})
+            }
+            _ => json!({"needle": perturb(&e, (pick >> 3) as u8), "hay": items, "kind": "perturbed"}),
         }
     });
     let string_cases = (gen::texts(8), any::<u16>(), any::<u16>(), 0u8..5, gen::values()).prop_map(|(h, a, b, mode, other)| {
